@@ -5,6 +5,7 @@ package sets
 func init() {
 	vxRegister("H20sInt", H20sInt)
 	vxRegister("H20sIntQ", H20sIntQ)
+	vxRegister("H20sInt4", H20sInt4)
 	vxRegister("H20sIntSeq", H20sIntSeq)
 }
 
@@ -48,6 +49,7 @@ const vxSetOps = 15
 // H20sInt: one step of every IntSet operation from an arbitrary state, checked
 // against the mathematical set model through a universally quantified probe.
 func H20sInt()  { h20sInt(3) }
+func H20sInt4() { h20sInt(4) }
 func H20sIntQ() { h20sInt(2) }
 
 func h20sInt(max int) {
